@@ -324,8 +324,22 @@ def r09_6(chk):
 
 
 def _refound_by_name(fn):
-    """calls that look a node up by the .name of a node object"""
-    return [c for c in ast.walk(fn) if isinstance(c, ast.Call) and isinstance(c.func, ast.Attribute) and c.func.attr in ("get_node_matching_name", "_get_node_matching_name") and c.args and isinstance(c.args[0], ast.Attribute) and c.args[0].attr == "name"]
+    """calls that look a node up by the .name of a node object, or detach a node object through
+    TreeNode.remove (which matches the first child of that NAME, not the object)"""
+    hits = [c for c in ast.walk(fn) if isinstance(c, ast.Call) and isinstance(c.func, ast.Attribute) and c.func.attr in ("get_node_matching_name", "_get_node_matching_name") and c.args and isinstance(c.args[0], ast.Attribute) and c.args[0].attr == "name"]
+    # receivers that are tree nodes: self, <x>.parent, names bound from such
+    nodeish = {"self"}
+    for st in ast.walk(fn):
+        if isinstance(st, ast.Assign) and len(st.targets) == 1 and isinstance(st.targets[0], ast.Name) and isinstance(st.value, ast.Attribute) and st.value.attr in ("parent", "_parent"):
+            nodeish.add(st.targets[0].id)
+    for c in ast.walk(fn):
+        if isinstance(c, ast.Call) and isinstance(c.func, ast.Attribute) and c.func.attr == "remove" and len(c.args) == 1:
+            r = c.func.value
+            is_node = (isinstance(r, ast.Name) and r.id in nodeish) or (isinstance(r, ast.Attribute) and r.attr in ("parent", "_parent"))
+            arg_is_name_text = isinstance(c.args[0], ast.Constant) or (isinstance(c.args[0], ast.Attribute) and c.args[0].attr == "name")
+            if is_node and not isinstance(c.args[0], ast.Constant):
+                hits.append(c)
+    return hits
 
 
 def r09_7(chk):
@@ -340,7 +354,7 @@ def r09_7(chk):
             n += 1
             hits = _refound_by_name(fn)
             for c in hits:
-                chk.violation("R09.7", key(m, f"{cname}.{name}", f"re-finds a node by {norm(c.args[0])}"), m.loc(c), f"`{norm(c)}` looks a node up by the name of a node object: for a tree with duplicate or missing internal names (DndParser('((c:1,d:1)90:1,(a:1,b:1)90:4);')) the first match in preorder is another node, and the operation edits the wrong branch")
+                chk.violation("R09.7", key(m, f"{cname}.{name}", f"re-finds a node by {norm(c.args[0])[:40]}"), m.loc(c), f"`{norm(c)}` looks a node up by the name of a node object: for a tree with duplicate or missing internal names (DndParser('((c:1,d:1)90:1,(a:1,b:1)90:4);')) the first match in preorder is another node, and the operation edits the wrong branch")
             if not hits:
                 chk.ok("R09.7", key(m, f"{cname}.{name}", "no lookup by a node's own name"), m.loc(fn), "", nontrivial=False)
     probe = ast.parse("def f(self):\n    tree = self.deepcopy()\n    node = tree.get_node_matching_name(climb_node.name)\n").body[0]
